@@ -359,7 +359,13 @@ def _histories(ctx, spec, g, path, ct, reqs, pending, case):
                 if ctx._wt > 12:
                     return
             real_fail(c, detail, site=site)
+        seen_wrong = False
+        base_wsite = wsite
         for a in acc:
+            # only a failure AT or AFTER the first access with the other coordinate type can belong to the open finding
+            a_act = a[-1] if a[-1] in ('2D', '3D') else ct
+            wsite = base_wsite if (seen_wrong or a_act != ct) else 'history'
+            seen_wrong = seen_wrong or a_act != ct
             c2 = dict(case, what='history', order=oname, access=list(a))
             ctx.case(path=path + '/history', history=oname, nontrivial_key=('hist', oname, spec['gtype'], spec['zclass'], min(n, 6), path),
                      history_type_known=('own parse, unknown' if unknown_type else 'own parse, common z' if standalone else 'via instance'))
@@ -964,7 +970,7 @@ def _malformed_cases(ctx, idx):
     kind = ['closed-polygon', 'point-count', 'non-finite', 'meas-more', 'meas-fewer', 'meas-single', 'meas-nan-padded',
             'meas-nan-short', 'mixed-dims', 'wrong-columns', 'one-dimensional', 'number', 'empty', 'unknown-type',
             'sop-numbering', 'meas-wrong-type', 'meas-parsed-single', 'meas-parsed-count', 'non-finite-shared-z',
-            'bad-dtype', 'compensating-counts'][idx % 21]
+            'bad-dtype', 'compensating-counts', 'sop-type-mismatch'][idx % 22]
     from highdicom.ann import Measurements
     n = len(s['counts'])
 
@@ -1118,6 +1124,32 @@ def _malformed_cases(ctx, idx):
         order = r.choice([(2, 1), (1, 3), (2, 3), (1, 1)])
         return dict(d, numbers=list(order)), lambda: _build_sop([_build_group(s, number=order[0]), _build_group(s2, number=order[1])], '2D' if dim == 2 else '3D'), \
             ('sopNumbers', {'numbers': list(order)})
+    if kind == 'sop-type-mismatch':
+        # groups built with the other coordinate type than the instance's: first, second or both of two groups; a PARSED group
+        # (type unknown to the constructor) next to it does not excuse the built one
+        s2 = _gen_group(ctx, 'bad2', idx, 2, dim)
+        other_dim = 5 - dim
+        so = _gen_group(ctx, 'bad3', idx, 1, other_dim)
+        so2 = _gen_group(ctx, 'bad4', idx, 2, other_dim)
+        ct = '2D' if dim == 2 else '3D'
+        variant = r.choice(['first', 'second', 'both', 'only', 'parsed-then-built'])
+        from highdicom.ann import AnnotationGroup
+
+        def build():
+            if variant == 'first':
+                gs = [_build_group(so), _build_group(s2)]
+            elif variant == 'second':
+                gs = [_build_group(s), _build_group(so2)]
+            elif variant == 'both':
+                gs = [_build_group(so), _build_group(so2)]
+            elif variant == 'only':
+                gs = [_build_group(so)]
+            else:
+                gs = [AnnotationGroup.from_dataset(_build_group(s), copy=True), _build_group(so2)]
+            return _build_sop(gs, ct)
+        built = {'first': [other_dim, dim], 'second': [dim, other_dim], 'both': [other_dim, other_dim], 'only': [other_dim],
+                 'parsed-then-built': [None, other_dim]}[variant]
+        return dict(d, variant=variant), build, ('sopTypes', {'ct': ct, 'built': built})
     if kind in ('meas-parsed-single', 'meas-parsed-count'):
         # a Measurements item that was parsed from a dataset (it no longer knows how many values it was built from),
         # dense (no NaN), reused for a group with another number of annotations
@@ -1147,9 +1179,9 @@ def _malformed(ctx, idx, reqs, pending):
     d, build, margs = _malformed_cases(ctx, idx)
     case = {'what': 'malformed', 'idx': idx, 'descr': d}
     st, res = _try(build)
-    if isinstance(margs, tuple) and margs[0] == 'sopNumbers':
+    if isinstance(margs, tuple) and margs[0] in ('sopNumbers', 'sopTypes'):
         reqs.append(margs)
-        pending.append((dict(case, what='sopNumbers'), ('ok', st == 'ok')))
+        pending.append((dict(case, what=margs[0]), ('ok', st == 'ok')))
     elif isinstance(margs, tuple):
         reqs.append(margs)
         pending.append((dict(case, what='construct'), ('ok', None) if st == 'ok' else ('err', _kind(res))))
